@@ -60,7 +60,7 @@ def gen(ctx):
         for i in range(1, n + 1):
             lines.append("[[" + ".".join(["u"] * i) + "]]\n")
         docs.append("".join(lines))
-    for _ in range(300 if ctx.tier == "quick" else 4000):
+    for _ in range(300 if ctx.tier == "quick" else 15000):
         parts = []
         hd = rng.choice([0, 1, 5, 40, 78, 79])
         if hd:
